@@ -237,12 +237,30 @@ def run_paths(ctx, fn, env0=None, this_names=("this",), include_exc=False, limit
             r2 = _clone(res)
             r2.steps.append(Step(node.kind, node.ast, lab, snap))
             if node.kind == "test" and lab in ("true", "false"):
-                r2.conds.append((mk_eval(snap).cond(node.ast.test), lab == "true", node.ast))
+                ck = mk_eval(snap).cond(node.ast.test)
+                if _trivial(ck) is (lab != "true"):
+                    continue  # `None is None` cannot be false: the arm is dead on this path
+                r2.conds.append((ck, lab == "true", node.ast))
             back = (n, s) in cfg.back_edges and s in heads
             dfs(s, env, r2, onpath | {(n, s, lab)}, heads, exit_only=back)
 
     dfs(cfg.entry, dict(env0 or {}), PathResult(), frozenset(), frozenset())
     return results
+
+
+_TRIVIAL = {"Is(None,None)": True, "IsNot(None,None)": False, "truthy(None)": False, "truthy(0)": False}
+
+
+def _trivial(ck):
+    """truth of a condition whose canonical text is a constant (None / integer literal), else None"""
+    if ck.startswith("not(") and ck.endswith(")"):
+        v = _trivial(ck[4:-1])
+        return None if v is None else not v
+    if ck in _TRIVIAL:
+        return _TRIVIAL[ck]
+    if ck.startswith("truthy(") and ck[7:-1].lstrip("-").isdigit():
+        return int(ck[7:-1]) != 0
+    return None
 
 
 class _NoLoop:
